@@ -24,7 +24,9 @@ func MustParseEquation(str string) (eq *Equation) {
 	defer repanicWithError()
 	p := &parser{buf: []byte(str)}
 	eq = precedentCorrect(p.readEq())
-
+	if p.nextNonSpace(); p.pos < len(p.buf) {
+		p.raise("parse error")
+	}
 	return reduceGroups(eq, nil)
 }
 
